@@ -150,19 +150,54 @@ mut("c14-id-uuid1-no-monotonic-guard", "C14", NODE,
     "        import time\n        self._id = str(uuid.UUID(int=(time.time_ns() << 32) | 0x1234, version=1)) if id is None else id\n",
     "home-made time-based uuid without the same-tick guard")
 mut("c14-delete-one-level", "C14", NODE,
-    """                Node.store.pop(descendant.id, None)
+    """                # A descendant may already have been removed on its own
+                Node.store.pop(descendant.id, None)
                 descendants.extend(descendant.children)
-        del Node.store[id]
-""", """                Node.store.pop(descendant.id, None)
-        del Node.store[id]
+""", """                # A descendant may already have been removed on its own
+                Node.store.pop(descendant.id, None)
 """, "delete by id unregisters children but not deeper descendants")
 mut("c14-discard-one-level", "C14", NODE,
-    """                Node.store.pop(descendant.id, None)
+    """                visited.add(descendant)
+                Node.store.pop(descendant.id, None)
                 descendants.extend(descendant.children)
         Node.store.pop(node.id, None)
-""", """                Node.store.pop(descendant.id, None)
+""", """                visited.add(descendant)
+                Node.store.pop(descendant.id, None)
         Node.store.pop(node.id, None)
 """, "discarding operations unregister children but not deeper descendants")
+mut("revert-delete-fix", "C14", NODE,
+    """            node = cls.get_node_instance(id)
+            descendants = list(node.children)
+            visited = {node}
+            while descendants:
+                descendant = descendants.pop()
+                if descendant in visited:
+                    # Malformed (cyclic) structure: do not walk it forever
+                    continue
+                visited.add(descendant)
+                # A descendant may already have been removed on its own
+                Node.store.pop(descendant.id, None)
+                descendants.extend(descendant.children)
+        del Node.store[id]
+""", """            node = cls.get_node_instance(id)
+            for child in node.children:
+                cls.delete_node_instance(child.id)
+        del Node.store[id]
+""", "the code before fix 364b529: every descendant is looked up in the registry again")
+mut("revert-discard-by-node-fix", "C14", NODE,
+    """        if children:
+            descendants = list(node.children)
+            visited = {node}
+            while descendants:
+                descendant = descendants.pop()
+                if descendant in visited:
+                    continue
+                visited.add(descendant)
+                Node.store.pop(descendant.id, None)
+                descendants.extend(descendant.children)
+        Node.store.pop(node.id, None)
+""", """        cls.delete_node_instance(node.id, children)
+""", "the behaviour before fix 603eeb2: discarding goes through the registry lookup by id", 60)
 mut("c14-replace-deletes-old-node-only", "C14", NODE,
     "            Node.delete_node(old_child)\n",
     "            Node.delete_node(old_child, children=False)\n",
@@ -358,7 +393,8 @@ mut("c06-serialiser-dedups-nsmap", "C06", MIO,
 
 def main():
     with open(os.path.join(HERE, "mutants", "index.json")) as f:
-        index = [m for m in json.load(f) if m["id"].startswith("revert-")]
+        mine = set(m["id"] for m in M)
+        index = [m for m in json.load(f) if m["id"].startswith("revert-") and m["id"] not in mine]
     tmp = tempfile.mkdtemp(prefix="verif-mkmut-")
     wt = os.path.join(tmp, "wt")
     subprocess.run(["git", "-C", "/repo", "worktree", "add", "--detach", wt, "HEAD"], check=True, capture_output=True)
